@@ -63,6 +63,7 @@ open_(['C05'], r'.*\.rep=row\..*',
       'row representation: getBasisInverseRowReal/ColReal/TimesVecReal, multBasis, multBasisTranspose return wrong values (multBasis accumulates into a DSVector with duplicate indices and adds scaled and unscaled columns; getBasisInverseColReal drops an spxLdexp result) - upstream "@todo does not work correctly"', regex=True)
 open_(['C05'], r'crash:.*(getBasisInverseColReal|getBasisInverseRowReal|getRowScaleExp).*',
       'row representation: getBasisInverseColReal indexes the scale-exponent array with a basis index (heap-buffer-overflow / use-after-free)', regex=True)
+open_(['C05'], r'crash:(nonrepro-)?signal:SIG(SEGV|ABRT|FPE|BUS):.*', 'row representation: the out-of-bounds writes of getBasisInverseColReal corrupt the heap of the non-sanitized volume build; the process dies later at an unrelated place (not reproducible per case)', regex=True)
 open_(['C17'], r'crash:.*SLUFactor::assign.*', 'copying a SoPlex object whose SLUFactor has never been loaded: SLUFactor::assign reserves u.row.size elements from an uninitialised size (std::length_error)', regex=True)
 open_(['C17'], r'resolve-after-clearBasis-differs:.*',
       'solving the same unmodified object again after clearBasis() is not a replica of the first solve (different iteration count / vertex in 1-3% of the LPs): per-solve state survives clearBasis()', regex=True)
